@@ -158,3 +158,70 @@ def _dom_contract(fn, fwd):
 
 register(_dom_contract('_doms', True))
 register(_dom_contract('_post_doms', False))
+
+# ---- find_branch_regions (C03): modular over the contracts of _doms and is_reachable_dfs
+JT = 'scfg.graph[begin].jump_targets'
+EMPTY_ARM = 'any(%s[j] != %s[i] and reach1(scfg.graph, %s[j], %s[i]) for j in range(len(%s)))' % ((JT,) * 5)
+DOMSET = '{k for k in scfg.graph if dominates(%s, %s, %s[i], k) and not dominates(%s, %s, end, k)}' % (NOPRED, PREDS, JT, NOPRED, PREDS)
+register(Contract(
+    qual=TR + ':find_branch_regions', params={'scfg': 'SCFG', 'begin': 'name', 'end': 'name'},
+    returns='list[opt[pair[name,set[name]]]]',
+    locals={'branch_regions': 'list[opt[pair[name,set[name]]]]', 'sub_keys': 'set[name]'},
+    requires={'begin-in': 'begin in scfg.graph',
+              'targets-in': 'all(t in scfg.graph for t in %s)' % JT,
+              'end-in': 'end in scfg.graph'},
+    raises={'RuntimeError': 'len(%s) == 0' % NOPRED},
+    ensures={
+        'len': 'len(result) == len(%s)' % JT,
+        # an arm that another arm flows into is an empty branch region (placeholder None) ...
+        'empty': 'all((result[i] is None) == %s for i in range(len(%s)))' % (EMPTY_ARM, JT),
+        # ... otherwise the region starts at the arm's target and holds the blocks it dominates and `end` does not
+        'start': 'all(implies(result[i] is not None, result[i][0] == %s[i]) for i in range(len(%s)))' % (JT, JT),
+        'members': 'all(implies(result[i] is not None, result[i][1] == %s) for i in range(len(%s)))' % (DOMSET, JT),
+    },
+    loops={
+        'for bra_start in jump_targets': LoopSpec(index='_i', inv={
+            'len': 'len(branch_regions) == _i',
+            'empty': 'all((branch_regions[i] is None) == %s for i in range(_i))' % EMPTY_ARM,
+            'start': 'all(implies(branch_regions[i] is not None, branch_regions[i][0] == %s[i]) for i in range(_i))' % JT,
+            'members': 'all(implies(branch_regions[i] is not None, branch_regions[i][1] == %s) for i in range(_i))' % DOMSET,
+        }),
+        'for jt in jump_targets': LoopSpec(index='_j', frame=['br-same'], inv={
+            'none-yet': 'not any(%s[j] != bra_start and reach1(scfg.graph, %s[j], bra_start) for j in range(_j))' % (JT, JT),
+            'br-same': 'branch_regions == entry.branch_regions',
+        }),
+        'for k, kdom in doms.items()': LoopSpec(done='_dk', frame=['br-same'], inv={
+            'sub': 'sub_keys == {k2 for k2 in _dk if bra_start in doms[k2] and end not in doms[k2]}',
+        }),
+    },
+    cuts={'branch_regions.append(None)': {
+        'witness': 'any(%s[j] != bra_start and reach1(scfg.graph, %s[j], bra_start) for j in range(len(%s)))' % (JT, JT, JT),
+        'bra': 'bra_start == %s[_i] and _i == len(branch_regions)' % JT}},
+    properties=['C03', 'C13'], gen='branch_regions',
+))
+
+# ---- find_head_blocks (C03): the linear chain from the head of the graph to `begin` (partial correctness: the loop
+# need not terminate on a cyclic chain that avoids `begin`; an assertion failure / KeyError is what a non-linear or
+# leaving chain produces and is allowed by this contract - the pipeline-level no-raise claim is C02's bounded part)
+HB = 'scfg.find_head()'
+JT1 = 'scfg.graph[b].jump_targets'
+register(Contract(
+    qual=TR + ':find_head_blocks', params={'scfg': 'SCFG', 'begin': 'name'}, returns='set[name]',
+    locals={'head_region_blocks': 'set[name]'},
+    raises={'AssertionError': 'True', 'KeyError': 'True'},
+    ensures={
+        'head-in': '%s in result' % HB,
+        'begin-in': 'begin in result',
+        'chain': 'all(b == begin or (b in scfg.graph and len(%s) == 1 and %s[0] in result) for b in result)' % (JT1, JT1),
+        'from-head': 'all(b == %s or reach1(scfg.graph, %s, b) for b in result)' % (HB, HB),
+    },
+    loops={'while True': LoopSpec(inv={
+        'cur': 'current_block == head or reach1(scfg.graph, head, current_block)',
+        'head': 'head == %s' % HB,
+        'all-reach': 'all(b == head or reach1(scfg.graph, head, b) for b in head_region_blocks)',
+        'chain': 'all(b != begin and b in scfg.graph and len(%s) == 1 and (%s[0] in head_region_blocks or %s[0] == current_block)'
+                 ' for b in head_region_blocks)' % (JT1, JT1, JT1),
+        'head-in': 'head in head_region_blocks or current_block == head',
+    })},
+    properties=['C03'], gen='head_blocks',
+))
